@@ -11,7 +11,7 @@ PLAN = {
     "manifest": {
         "technique": "Kani/CBMC on the real layer code with one recording recorder double: complete forwarding/routing glue with the aho-corasick matcher and the radix_trie stubbed (their contracts ASSUMED), full-domain MetricKindMask, concrete-string smoke check of the prefix helpers, bounded fanout width (w <= 3), Stack::push by unfolding",
         "text": "Per layer, on the real code: Filter -- with should_filter replaced by a symbolic verdict the verdict is asked once about the metric name; true => inner not called and an inert handle returned, false => inner called exactly once with identical arguments (all 6 operations). Router -- route(kind, name) is the default when the global mask does not name the kind (trie not consulted), otherwise targets[i] for the index the kind's trie returns for the name, or the default on None; each of the 6 methods consults the trie of its own kind once and forwards exactly once to that recorder; add_route stores the pre-push length into exactly the tries its mask names, ORs the mask, and the stored index is in bounds for the unchecked access; MetricKindMask::matches/BitOr over 3 kinds x all 256 masks. Prefix -- forwarded exactly once with name == prefix ++ '.' ++ name, labels/metadata/unit/description untouched, for 3 concrete prefixes (ASCII, empty, non-ASCII) x 2 concrete names: a smoke check, strings are not symbolic. Fanout -- every describe/register reaches each of w <= 3 recorders once with equal arguments and every update through a fanned-out handle reaches each inner handle once (bounded). Stack::new is transparent and Stack::new(r).push(a).push(b) behaves as b.layer(a.layer(r)).",
-        "note": "Verus (glue.verus.rs): FilterLayer::layer builds the automaton from exactly the configured patterns, case-insensitive iff configured whatever the kind, DFA iff asked (builder stub records its settings); Router::route returns the default unless the mask names the kind and the trie's get_ancestor (longest stored prefix, ASSUMED contract) answers, then that target, with the unchecked index proved in bounds from the route-table invariant. ASSUMED, not executed: aho-corasick is_match <=> the name contains a configured pattern (ASCII-case-insensitively iff configured); radix_trie insert/get_ancestor = store / longest stored key that is a prefix of the name (measured: real trie lookups time out under CBMC). 'Longest prefix' and 'contains pattern' themselves therefore rest on those crates. Prefix string equality is checked on concrete strings only (no Verus template for prefix_key was written); fanout width <= 3 is bounded, not proved.",
+        "note": "Verus (glue.verus.rs): FilterLayer::layer builds the automaton from exactly the configured patterns, case-insensitive iff configured whatever the kind, DFA iff asked (builder stub records its settings); Router::route returns the default unless the mask names the kind and the trie's get_ancestor (longest stored prefix, ASSUMED contract) answers, then that target, with the unchecked index proved in bounds from the route-table invariant. ASSUMED, not executed: aho-corasick is_match <=> the name contains a configured pattern (ASCII-case-insensitively iff configured); radix_trie insert/get_ancestor = store / longest stored key that is a prefix of the name (measured: real trie lookups time out under CBMC). 'Longest prefix' and 'contains pattern' themselves therefore rest on those crates. Prefix: prefix_key / prefix_key_name are proved in glue.verus.rs for ALL strings (name == prefix ++ '.' ++ name, labels untouched; capacity arithmetic cannot overflow given str lengths <= isize::MAX); the forwarding through Prefix is checked by Kani on concrete strings; fanout width <= 3 is bounded, not proved.",
     },
     "min_obligations": {"quick": 12, "thorough": 12},
     "assumptions": [
@@ -27,7 +27,7 @@ PLAN = {
     ],
     "verus": [
         # layer glue the Kani harnesses take as given: Router::route's use of the trie answer, FilterLayer::layer's automaton settings
-        {"template": "glue.verus.rs", "tier": "quick", "rlimit": 30, "min_functions": 2},
+        {"template": "glue.verus.rs", "tier": "quick", "rlimit": 30, "min_functions": 4},
     ],
     "kani": [{
         "crate": "metrics-util",
